@@ -143,7 +143,7 @@ func runTsgenJob(prog *symgo.Program, inst instance, tier string, workers int, s
 }
 
 func replayScheduleAndRecord(prog *symgo.Program, fn interface{ String() string }, cfg symgo.Config, prop string, inst instance, js JobSpec, res *symgo.BMCResult, pool int) (path, confirmed, note string) {
-	dir := filepath.Join(verifRoot, "replays", prop)
+	dir := filepath.Join(outRoot, "replays", prop)
 	os.MkdirAll(dir, 0o755)
 	safe := strings.NewReplacer("[", "_", "]", "", "/", "_", " ", "_", "*", "", "(", "", ")", "", "\"", "", ":", "", ";", "", "…", "").Replace(inst.name + "-" + truncate(res.Violated, 40))
 	path = filepath.Join(dir, safe+"-schedule.json")
